@@ -62,6 +62,11 @@ type Plan struct {
 	FaultStop  int         `json:"fault_stop"` // faults stop after this many requests
 	Concurrent int         `json:"concurrent"` // up to this many responses are handed to the syncer at the same instant
 	Tape       []uint16    `json:"tape"`
+	// Confirm > 0 (set on minimisation candidates): the plan is executed 1+Confirm
+	// times and counts as violating only if every execution violates the same
+	// oracle, so that minimisation keeps plans that fail robustly although the
+	// syncer's internal scheduling is not decided by the plan.
+	Confirm int `json:"confirm,omitempty"`
 }
 
 // ---- process prologue: log handler, process-wide pools
@@ -127,6 +132,7 @@ type runState struct {
 	opsDone int
 	complete bool
 	stopAt  time.Duration // virtual instant at which faults stopped
+	cycleErrs, errsAfterStop int
 	outcome simcore.Hash64
 }
 
@@ -402,7 +408,16 @@ func (rs *runState) loop() {
 				if trace {
 					fmt.Printf("t=%v Sync returned %v\n", n.now(), err)
 				}
-				time.Sleep(time.Second)
+				// the downloader retries a failed cycle; back off like it would
+				rs.cycleErrs++
+				if !n.faultsOn {
+					rs.errsAfterStop++
+					if rs.errsAfterStop > 40 {
+						rs.fail(simcore.Violf("liveness", "sync cycles keep failing after the faults stopped (%d failures, last: %v)", rs.errsAfterStop, err))
+						return
+					}
+				}
+				time.Sleep(time.Duration(min(rs.cycleErrs, 60)) * time.Second)
 				rs.startSync()
 				continue
 			default:
@@ -789,8 +804,33 @@ func DecodeC47(b []byte) (any, error) {
 	return p, err
 }
 
+// RunC47 executes a plan. Replaying a file (VERIF_REPLAY) tries up to four
+// executions and reports the first violation, because the message sequence
+// inside one execution is only perturbed, not decided.
 func RunC47(t *testing.T, pl any) *simcore.Result {
 	p := pl.(*Plan)
+	if os.Getenv("VERIF_REPLAY") != "" {
+		var res *simcore.Result
+		for i := 0; i < 4; i++ {
+			res = runC47Once(t, p)
+			if res.Violation != nil {
+				break
+			}
+		}
+		return res
+	}
+	res := runC47Once(t, p)
+	for i := 0; i < p.Confirm && res.Violation != nil; i++ {
+		again := runC47Once(t, p)
+		if again.Violation == nil || again.Violation.Oracle != res.Violation.Oracle {
+			again.Violation = nil
+			return again
+		}
+	}
+	return res
+}
+
+func runC47Once(t *testing.T, p *Plan) *simcore.Result {
 	prologue()
 	res := simcore.NewResult()
 	var rs *runState
